@@ -497,10 +497,13 @@ theorem clear_ptr (cfg : Cfg K V) {f : K → Nat} {p : PSL K V} {s : SL K V} (ha
 /-! ### Remove -/
 
 /-- `Remove` on an initialised list. -/
-theorem remove_ptr_inv (cfg : Cfg K V) (hc : WeakCmp cfg.cmp) {f : K → Nat} {p : PSL K V} {s : SL K V}
+theorem remove_ptr_inv_full (cfg : Cfg K V) (hc : WeakCmp cfg.cmp) {f : K → Nat} {p : PSL K V} {s : SL K V}
     (ha : AbsF f p s) (hi : Inv cfg.cmp s) (key : K) {s' : SL K V} {v : V} {b : Bool}
     (hs : s.remove cfg key = some (s', v, b)) :
-    ∃ p', p.remove cfg key = some (p', v, b) ∧ AbsF f p' s' ∧ (Hts f p s → Hts f p' s') := by
+    ∃ p', p.remove cfg key = some (p', v, b) ∧ AbsF f p' s' ∧ (Hts f p s → Hts f p' s') ∧
+      -- the unlinked node stays on the heap with its key and value, and an empty tower
+      (∀ n, findEq cfg.cmp key (chain0 s) = some n →
+        ∃ nd', p'.nodes[f n]? = some nd' ∧ nd'.key = n ∧ nd'.val = v ∧ nd'.next = #[]) := by
   obtain ⟨rest, hr⟩ := hi.lv_cons
   have hnd := hi.lv_nodup hc
   have hlen := hi.len32
@@ -525,7 +528,7 @@ theorem remove_ptr_inv (cfg : Cfg K V) (hc : WeakCmp cfg.cmp) {f : K → Nat} {p
     simp only [Option.some.injEq, Prod.mk.injEq] at hs
     obtain ⟨rfl, rfl, rfl⟩ := hs
     rw [hi.cntHit_zero hc hf] at hloop
-    exact ⟨p, by simp [PSL.remove, hloop], ha, id⟩
+    exact ⟨p, by simp [PSL.remove, hloop], ha, id, fun n hn => by cases hn⟩
   | some n =>
     obtain ⟨hn, hnk⟩ := findEq_some hf
     obtain ⟨val, lvl, r1, r2, r3⟩ := remove_found cfg hc hi hf
@@ -635,7 +638,7 @@ theorem remove_ptr_inv (cfg : Cfg K V) (hc : WeakCmp cfg.cmp) {f : K → Nat} {p
       | some hd => exact ⟨hd, rfl⟩
     obtain ⟨hd1, g1, g2, _⟩ := q2.head hd hh
     obtain ⟨_, hc0, _⟩ := Inv.of_removed hc hi hn r2
-    refine ⟨{ p2 with level := lvl, len := p2.len - 1 }, ?_, ?_, ?_⟩
+    refine ⟨{ p2 with level := lvl, len := p2.len - 1 }, ?_, ?_, ?_, ?_⟩
     · unfold PSL.remove
       simp only [hloop]
       have hb : (heightOf s n == 0) = false := by simp [hn0]
@@ -691,6 +694,25 @@ theorem remove_ptr_inv (cfg : Cfg K V) (hc : WeakCmp cfg.cmp) {f : K → Nat} {p
       rw [a4, cntMem_delTop_ne hc hkn (heightOf s n) s.lv
         (fun l hl => ⟨hi.tower.1 l (List.mem_of_mem_take hl), hpre l hl⟩)]
       exact hH k hk0 nk k1
+    · intro n' hn'
+      simp only [Option.some.injEq] at hn'
+      subst hn'
+      have hlt := (Array.getElem?_eq_some_iff.mp m1).1
+      refine ⟨{ nd1 with next := #[] }, ?_, ?_, ?_, rfl⟩
+      · show (p1.nodes.setIfInBounds (f n) _)[f n]? = _
+        simp [Array.getElem?_setIfInBounds, hlt]
+      · show nd1.key = n
+        rw [m2, n2]
+      · show nd1.val = val
+        rw [m3, hval]
+
+/-- `Remove` on an initialised list. -/
+theorem remove_ptr_inv (cfg : Cfg K V) (hc : WeakCmp cfg.cmp) {f : K → Nat} {p : PSL K V} {s : SL K V}
+    (ha : AbsF f p s) (hi : Inv cfg.cmp s) (key : K) {s' : SL K V} {v : V} {b : Bool}
+    (hs : s.remove cfg key = some (s', v, b)) :
+    ∃ p', p.remove cfg key = some (p', v, b) ∧ AbsF f p' s' ∧ (Hts f p s → Hts f p' s') := by
+  obtain ⟨p', h1, h2, h3, _⟩ := remove_ptr_inv_full cfg hc ha hi key hs
+  exact ⟨p', h1, h2, h3⟩
 
 /-- `Remove` from every reachable state, with the tower heights. -/
 theorem remove_ptr_h (cfg : Cfg K V) (hc : WeakCmp cfg.cmp) {f : K → Nat} {p : PSL K V} {s : SL K V}
